@@ -1671,6 +1671,17 @@ func indirectEface(v reflect.Value) reflect.Value {
 // complex, it improves the memory allocation story for the most common
 // execution paths when executing a template, such as when accessing a field
 // element.
+// mapIndex looks key up in the map v. A key of a comparable type can still hold something that
+// cannot be hashed (an interface field holding a slice): MapIndex panics then.
+func mapIndex(v, key reflect.Value, keyAsStr string) (elem reflect.Value, err error) {
+	defer func() {
+		if r := recover(); r != nil {
+			err = fmt.Errorf("can't use %s (%s) as key for map of type %s: %v", keyAsStr, key.Type(), v.Type(), r)
+		}
+	}()
+	return indirectEface(v.MapIndex(key)), nil
+}
+
 func resolveIndex(v, index reflect.Value, indexAsStr string) (reflect.Value, error) {
 	if !v.IsValid() {
 		return reflect.Value{}, fmt.Errorf("there is no field or method '%s' in %s (%s)", index, v, getTypeString(v))
@@ -1787,7 +1798,7 @@ func resolveIndex(v, index reflect.Value, indexAsStr string) (reflect.Value, err
 			// (a map with an interface key type accepts any index type at compile time)
 			return reflect.Value{}, fmt.Errorf("can't use %s (%s) as key for map of type %s: not comparable", indexAsStr, k.Type(), v.Type())
 		}
-		return indirectEface(v.MapIndex(indexVal)), nil
+		return mapIndex(v, indexVal, indexAsStr)
 	case reflect.Ptr:
 		etyp := v.Type().Elem()
 		if etyp.Kind() == reflect.Struct && indexIsStr {
